@@ -306,7 +306,7 @@ def check_accuracy(ctx, stream, xs, ys, par, vals, what="gaussian"):
 def corr_uniform(ctx):
     r = ctx.rng
     cases, lines = [], []
-    n = ctx.n(500, 6000)
+    n = ctx.n(2000, 30000)
     for i in range(n):
         mode = r.choice(["pow2", "dyadic", "dyadic", "dec", "neg"])
         if mode in ("pow2", "dyadic", "neg"):
@@ -413,7 +413,7 @@ def corr_gauss(ctx):
     for rho, x, y, _ in FAR_CORPUS:
         cases.append(("gauss", [x], [y], 0.0, 0.0, 1.0, 1.0, rho, "far-corpus"))
         lines.append("ker.gauss %s %s 0 0 1 1 %s" % (enc([x]), enc([y]), enc(rho)))
-    n = ctx.n(1500, 20000)
+    n = ctx.n(6000, 120000)
     for i in range(n):
         mu0, mu1, sxx, syy, sxy, kind = gen_params(ctx)
         rho_nom = sxy / math.sqrt(sxx * syy)
@@ -440,7 +440,7 @@ def corr_gauss(ctx):
             lines.append("ker.%s %s %s %s %s %s %s %s" % ((op,) + tuple(enc(v) for v in (xs, ys, mu0, mu1, sxx, syy, sxy))))
     # norm_cdf on a ladder
     zs = [-40.0, -12.0, -8.3, -6.0, -5.9, -3.0, -2.0, -1.99, -1.0, -1e-9, 0.0, 1e-9, 0.5, 1.0, 2.0, 2.01, 3.0, 6.0, 8.3, 12.0, 40.0] + \
-         [r.uniform(-12, 12) for _ in range(ctx.n(200, 2000))]
+         [r.uniform(-12, 12) for _ in range(ctx.n(500, 5000))]
     lines.append("ker.ncdf %s" % enc(zs))
     # gauss_legendre_quad: tables and rule choice at Rat, exactly
     rs = [0.0, 0.2999, 0.3, -0.3, 0.3001, 0.7499, 0.75, -0.75, 0.7501, 0.925, 0.99, -0.1, 1.0, 1.5] + [gen_r(ctx) for _ in range(40)]
@@ -555,7 +555,7 @@ def t_gauss(ctx):
         if len(ctx.violations) > 5:
             return
     # --- accuracy vs the closed form, range
-    nsets = ctx.n(500, 8000)
+    nsets = ctx.n(3000, 50000)
     m = 48
     for i in range(nsets):
         mu0, mu1, sxx, syy, sxy, kind = gen_params(ctx)
@@ -576,7 +576,7 @@ def t_gauss(ctx):
         if len(ctx.violations) > 5:
             return
     # --- accuracy vs adaptive integration and vs scipy's multivariate normal, point by point
-    for i in range(ctx.n(250, 3000)):
+    for i in range(ctx.n(1000, 20000)):
         mu0, mu1, sxx, syy, sxy, kind = gen_params(ctx)
         rho = sxy / math.sqrt(sxx * syy)
         if not abs(rho) < 1 or rho == 0:
@@ -601,7 +601,7 @@ def t_gauss(ctx):
             if len(ctx.violations) > 5:
                 return
     # --- monotone in each argument on fine ladders; rectangle mass; tails; marginals
-    for i in range(ctx.n(250, 4000)):
+    for i in range(ctx.n(1000, 15000)):
         mu0, mu1, sxx, syy, sxy, kind = gen_params(ctx, allow_unit=True)
         rho = sxy / math.sqrt(sxx * syy)
         if not abs(rho) < 1:
@@ -664,7 +664,7 @@ def t_gauss(ctx):
         if len(ctx.violations) > 5:
             return
     # --- zero covariance: the product of the marginals, exactly as the code computes them, and accurately
-    for i in range(ctx.n(200, 3000)):
+    for i in range(ctx.n(600, 8000)):
         mu0, mu1, sxx, syy, _, kind = gen_params(ctx, rho=0.0)
         ts = gen_ts(ctx, 16, 0.0)
         xs, ys = points(mu0, mu1, sxx, syy, ts)
@@ -698,7 +698,7 @@ def t_far_tails(ctx):
                           {"op": "gauss", "law": "far_tail", "x": [x], "y": [y], "mu": [0.0, 0.0], "sigma": [1.0, 1.0, rho], "expect": want})
             if len(ctx.violations) > 5:
                 return
-    for i in range(ctx.n(150, 2000)):
+    for i in range(ctx.n(600, 10000)):
         mu0, mu1, sxx, syy, sxy, kind = gen_params(ctx)
         rho = sxy / math.sqrt(sxx * syy)
         if not abs(rho) < 1:
@@ -727,7 +727,7 @@ def t_far_tails(ctx):
 def t_uniform(ctx):
     """the uniform kernel's laws on the real code (rounding is outside the theorems)"""
     r = ctx.rng
-    for i in range(ctx.n(200, 3000)):
+    for i in range(ctx.n(800, 12000)):
         w = r.choice([2.0 ** r.randint(-8, 8), round(r.uniform(0.01, 9), 3), 10 ** r.uniform(-4, 4)])
         h = r.choice([2.0 ** r.randint(-8, 8), round(r.uniform(0.01, 9), 3), 10 ** r.uniform(-4, 4)])
         mu0 = r.choice([0.0, r.uniform(-50, 50), r.uniform(-1, 1) * 100 * w])
